@@ -7,10 +7,13 @@
   The row budget (one global counter) and the clock are ORACLES of the limit environment: every
   theorem holds for every firing pattern, hence for the real counter and the real clock.
   Not in the model (partial): wall-clock time itself — "stops within a bounded amount of extra
-  work" is proved as a bound on PULLS (`stops_at_error_*`), not on seconds.
+  work" is proved as a bound on PULLS (`bounded_extra_work` over the whole plan, `stops_at_error_*`
+  per operator), not on seconds.
 -/
 import Nervus.Proofs.Limits
 import Nervus.Proofs.PlanInst
+import Nervus.Proofs.Bounded
+import Nervus.Proofs.WriteOps
 namespace Nervus.Props.C33
 open Nervus Nervus.PlanOps Nervus.PlanInst
 
@@ -81,7 +84,43 @@ theorem stops_at_error_aggregate (S : Sem χ ρ ν ε κ α) (L : LimEnv ε) (si
     StopsAtError (aggregateT S L site env groupBy aggs) :=
   Trans.stopsAtError _ (aggregateT_errFwd S L site env groupBy aggs)
 
+/-- **bounded extra work, over the plan** (full strength in pulls): a consumer of ANY node of ANY
+    plan that does not call again after an `Err` (as the driver's `collect` does) makes every
+    operator below behave the same way towards its own inputs — no iterator anywhere in the tree
+    is pulled again after it has returned an `Err` (`late = false` for every hand-over) — and the
+    pulls that return an `Err` number at most the length of the operator path below the node
+    (`Plan.depth`; nested executions count as children).  After the first failing check every pull
+    there still is returns that error: it travels up one `next()` per level and nothing else runs. -/
+theorem bounded_extra_work_node (S : Sem χ ρ ν ε κ α) (Q : Quirks) (hq : Q.forwardsErr) (L : LimEnv ε)
+    (p : Plan χ ρ ε α) (site : Site) (env : ρ) (d : Nat) (hc : Calls (runL S Q L site env p) d) :
+    (∀ h ∈ trace false S Q L site env p d, h.late = false) ∧
+    errPulls (trace false S Q L site env p d) ≤ p.depth :=
+  trace_good S Q hq L p site env d hc
+
+/-- **complete_or_error for write statements** (`execute_write_with_rows`: staged read clauses,
+    write clauses, FOREACH): under any lawful limit environment the statement does exactly what the
+    unlimited run does — same modification count, rows handed on and graph state — or fails with a
+    limit error.  The list expressions of FOREACH clauses are assumed not to park failures. -/
+theorem write_complete_or_error {ω τ : Type} (isLimit : ε → Bool) (S : Sem χ ρ ν ε κ α) (Q : Quirks)
+    (hq : Q.forwardsErr) (L : LimEnv ε) (hL : L.Lawful isLimit) (hS : S.LimitLawful L.coll isLimit)
+    (W : WSem ω ρ ε τ) (wp : WPlan χ ρ ε α ω)
+    (hnp : ∀ e ∈ wp.lists, ∀ env r, S.park L.coll e env r = none) (site : Site) (env : ρ) (t : τ) :
+    execW S Q L W site env wp t = execW S Q LimEnv.unlimited W site env wp t ∨
+    ∃ e, execW S Q L W site env wp t = .error e ∧ isLimit e = true :=
+  execW_lim isLimit S Q hq L hL hS W wp hnp site env t
+
+/-- the same at the driver: while the query's result is collected -/
+theorem bounded_extra_work (S : Sem χ ρ ν ε κ α) (Q : Quirks) (hq : Q.forwardsErr) (L : LimEnv ε)
+    (params : ρ) (p : Plan χ ρ ε α) : BoundedExtraWork S Q L params p :=
+  boundedExtraWork S Q hq L params p
+
 end
+
+/-- **C33, bounded extra work (full strength in pulls)** on the working tree, for every
+    instantiation, every limit environment (lawful or not: ANY error counts), every plan -/
+theorem C33_bounded_work_full {χ ρ ν ε κ α : Type} [DecidableEq κ] (S : Sem χ ρ ν ε κ α) (L : LimEnv ε)
+    (params : ρ) (p : Plan χ ρ ε α) : BoundedExtraWork S Quirks.current L params p :=
+  bounded_extra_work S _ quirks_repaired L params p
 
 /-- **C33 (full strength, as far as the model reaches)** on the working tree: complete-or-error
     for every lawful limit environment, every instantiation, every plan.  PARTIAL with respect to
@@ -106,7 +145,7 @@ theorem C33_instance (X : (String → Nat → Option DErr) → ExFn) (o : Opts)
 
 /-- `UNWIND [1, 2, 3] AS x RETURN DISTINCT x` -/
 def qDistinct3 : Plan DE DRow DErr DAgg :=
-  .distinct (.project [("x", .var "x")] (.unwind (.lit (.list [.int 1, .int 2, .int 3])) "x" (.source [.ok []])))
+  .distinct (.project [("x", .var "x")] (.unwind (.lit (.list [.int 1, .int 2, .int 3])) "x" (.scan [[]])))
 
 def never : Site → Nat → Bool := fun _ _ => false
 
@@ -122,7 +161,7 @@ def rowX (i : Int) : DRow := [("x", dint i)]
 
 /-- non-vacuity: without DISTINCT the limited runs fail with the limit error, on both trees -/
 example : execute dsem Quirks.pinned coll2 []
-    (.project [("x", .var "x")] (.unwind (.lit (.list [.int 1, .int 2, .int 3])) "x" (.source [.ok []])))
+    (.project [("x", .var "x")] (.unwind (.lit (.list [.int 1, .int 2, .int 3])) "x" (.scan [[]])))
     = .error (.limit .coll) := by decide
 
 /-- pinned tree: the `Unwind.list` check fails (3 > 2), DISTINCT drops the limit error and the
@@ -164,6 +203,23 @@ theorem C33_counterexample_distinct_keeps_pulling :
       (driverDemand ((distinctT dsem false).run [] [.ok (rowX 1), .error (DErr.limit .rows), .ok (rowX 2)])) = 2 := by
   constructor <;> decide
 
+/-- `UNWIND ['true', 1, 'false'] AS v RETURN DISTINCT toBoolean(v) AS b` — the second row fails -/
+def qDistinctMixed : Plan DE DRow DErr DAgg :=
+  .distinct (.project [("b", .toBoolean (.var "v"))]
+    (.unwind (.lit (.list [.str "true", .int 1, .str "false"])) "v" (.scan [[]])))
+
+/-- pinned tree, in the terms of `BoundedExtraWork`: DISTINCT drops the error of the second row and
+    pulls its input again — the third row is a `late` hand-over; on the repaired operators nothing
+    is `late` and the error costs at most 3 pulls (the depth of the plan) -/
+theorem C33_counterexample_late_pull :
+    ¬ BoundedExtraWork dsem Quirks.pinned .unlimited [] qDistinctMixed ∧
+    BoundedExtraWork dsem Quirks.repaired .unlimited [] qDistinctMixed := by
+  constructor
+  · intro h
+    have := h.1 ⟨false, .ok [("b", dbool false)], true⟩ (by decide)
+    cases this
+  · exact bounded_extra_work dsem Quirks.repaired (by decide) .unlimited [] qDistinctMixed
+
 /-! ### a parked limit error and the end of the stream -/
 
 /-- `EXISTS { UNWIND range(1, n) AS k RETURN k }` for the row's `n`: the `Function(range)` check -/
@@ -178,7 +234,7 @@ def existsRange : (String → Nat → Option DErr) → ExFn := fun coll _ _ row 
 /-- `UNWIND [3, 5, 50] AS n UNWIND CASE WHEN EXISTS { … range(1, n) … } THEN [n] ELSE [] END AS y` -/
 def qParkLast : Plan DE DRow DErr DAgg :=
   .unwind (.caseWhen (.existsSub 0) (.single (.var "n")) (.lit (.list []))) "y"
-    (.unwind (.lit (.list [.int 3, .int 5, .int 50])) "n" (.source [.ok []]))
+    (.unwind (.lit (.list [.int 3, .int 5, .int 50])) "n" (.scan [[]]))
 
 /-- `max_collection_items = 10` -/
 def coll10 : LimEnv DErr := LimEnv.ofOpts DErr.limit ⟨10 ^ 9, 10, 0, 10 ^ 9⟩ never never
